@@ -105,9 +105,9 @@ Proof.
 Qed.
 
 Theorem parse_render_stage2 : forall cpp e,
-  frag2 e = true -> decl_like (render e) = false -> parse cpp (render e) = Some (tree_of e).
+  frag2 e = true -> parse cpp (render e) = Some (tree_of e).
 Proof.
-  intros cpp e Hf Hd. destruct (main2 cpp e Hf) as [HS _].
-  apply (parse_of_Sx cpp _ _ (rank e) HS); [apply rank_le| |exact Hd].
+  intros cpp e Hf. destruct (main2 cpp e Hf) as [HS _].
+  apply (parse_of_Sx cpp _ _ (rank e) HS); [apply rank_le|].
   apply prep_no_q. apply alltok_app; [apply frag2_no_q; exact Hf|apply alltok_one; reflexivity].
 Qed.
